@@ -64,6 +64,38 @@ def main():
                     fails += 1
         finally:
             shutil.rmtree(tmp, ignore_errors=True)
+    # behaviour-preserving refactoring sets written by independent sub-agents: every check must stay silent
+    rdir = os.path.join(VERIF, "refactors")
+    nref = 0
+    if os.path.isdir(rdir) and not sel:
+        for d in sorted(os.listdir(rdir)):
+            pf = os.path.join(rdir, d, "patch.diff")
+            if not os.path.exists(pf):
+                continue
+            nref += 1
+            tmp = tempfile.mkdtemp(prefix="pv_ref_")
+            try:
+                repo = os.path.join(tmp, "repo")
+                shutil.copytree("/repo", repo, ignore=shutil.ignore_patterns(".git", "bin"))
+                pr = subprocess.run(["patch", "-p1", "-s", "-i", pf], cwd=repo, capture_output=True, text=True)
+                vd = os.path.join(tmp, "verif")
+                os.makedirs(os.path.join(vd, "evidence"))
+                shutil.copy(os.path.join(VERIF, "known_findings.json"), vd)
+                env2 = dict(env, VERIF_REPO=repo, VERIF_DIR=vd)
+                what = only_prop or "ALL"
+                if pr.returncode != 0:
+                    ok, verdict, first = False, "PATCH DOES NOT APPLY", pr.stdout[:150]
+                else:
+                    p = subprocess.run(["bash", "-c", f". {VERIF}/env.sh; {VERIF}/bin/pcheck {what} quick"], env=env2, capture_output=True, text=True)
+                    viol = [l for l in (p.stdout + p.stderr).splitlines() if l.startswith("violated") or l.startswith("undecided") or l.startswith("machinery failure")]
+                    ok = p.returncode == 0 and not viol
+                    verdict, first = ("silent" if ok else "FALSE ALARM"), (viol[0][:150] if viol else "")
+                print(f"{'ok  ' if ok else 'FAIL'} refactors/{d:35s} {what} {verdict}  {first}")
+                results.append({"mutant": "refactors/" + d, "property": what, "kind": "behaviour-preserving refactoring set (independent sub-agent)", "verdict": verdict, "ok": ok, "first_report": first})
+                if not ok:
+                    fails += 1
+            finally:
+                shutil.rmtree(tmp, ignore_errors=True)
     for m in muts:
         tmp = tempfile.mkdtemp(prefix="pv_mut_")
         try:
@@ -96,7 +128,7 @@ def main():
                         print(out[-3000:])
         finally:
             shutil.rmtree(tmp, ignore_errors=True)
-    print(f"{len(muts)} mutants, {len(seeds)} seeded changes, {fails} failures")
+    print(f"{len(muts)} mutants, {len(seeds)} seeded changes, {nref} refactoring sets, {fails} failures")
     if json_out:
         json.dump({"mutants": len(muts) + len(seeds), "failures": fails, "results": results}, open(json_out, "w"), indent=1)
     return 1 if fails else 0
